@@ -10,6 +10,9 @@ import (
 // echoed) -> banner and prompt; afterwards it is a plain echoing CLI.
 type C05Login struct {
 	*Pipe
+	// Rejects: that many correct logins are refused first ("Login incorrect", back to "login:")
+	Rejects    int
+	rejected   int
 	User, Pass string
 	Prompt     string
 	state      int
@@ -55,10 +58,11 @@ func (l *C05Login) onWrite(b []byte) {
 			l.state = 1
 			l.Emit([]byte("\nPassword:"))
 		case 1:
-			if l.user == l.User && line == l.Pass {
+			if l.user == l.User && line == l.Pass && l.rejected >= l.Rejects {
 				l.state = 2
 				l.Emit([]byte("\n\n" + l.Prompt))
 			} else {
+				l.rejected++
 				l.state = 0
 				l.Emit([]byte("\nLogin incorrect\nlogin:"))
 			}
@@ -68,6 +72,97 @@ func (l *C05Login) onWrite(b []byte) {
 				out = "out of " + line + "\n"
 			}
 			l.Emit([]byte("\n" + out + l.Prompt))
+		}
+	}
+}
+
+// C05LoginSSH is a minimal in-channel SSH login (what the system transport shows when ssh itself
+// asks): optional key passphrase, password prompt(s), then banner and shell prompt. Prompts end
+// exactly where the library's patterns first match, so every phase of the login completes at the
+// end of what the device printed. It implements transport.SSHImplementation (GetSSHArgs) and
+// InChannelAuthImplementation (ssh flavour).
+type C05LoginSSH struct {
+	*Pipe
+	Pass, Passphrase string
+	Rejects          int  // password prompts answered with another prompt before the password is accepted
+	Denied           bool // answer the password with "Permission denied" (an ssh error text)
+	PPRejects        int  // passphrase prompts answered with another passphrase prompt
+	ppRejected       int
+	state            string
+	line             []byte
+	rejected         int
+	Lines            []string
+}
+
+// NewC05LoginSSH builds the device; call Start before the driver opens.
+func NewC05LoginSSH(pass, passphrase string, rejects int, denied bool) *C05LoginSSH {
+	l := &C05LoginSSH{Pipe: NewPipe(), Pass: pass, Passphrase: passphrase, Rejects: rejects, Denied: denied}
+	l.Pipe.OnWrite = l.onWrite
+	return l
+}
+
+func (l *C05LoginSSH) GetInChannelAuthType() transport.InChannelAuthType {
+	return transport.InChannelAuthSSH
+}
+
+func (l *C05LoginSSH) GetSSHArgs() *transport.SSHArgs {
+	return &transport.SSHArgs{PrivateKeyPassPhrase: l.Passphrase}
+}
+
+const c05PassPrompt = "admin@router's password:"
+
+// Start emits the first prompt.
+func (l *C05LoginSSH) Start() {
+	l.Mu.Lock()
+	if l.Passphrase != "" {
+		l.state = "pp"
+		l.Emit([]byte("Enter passphrase for key"))
+	} else {
+		l.state = "pass"
+		l.Emit([]byte(c05PassPrompt))
+	}
+	l.Mu.Unlock()
+}
+
+func (l *C05LoginSSH) onWrite(b []byte) {
+	for _, ch := range b {
+		if ch != '\n' {
+			l.line = append(l.line, ch)
+			if l.state == "shell" {
+				l.Emit([]byte{ch})
+			}
+			continue
+		}
+		line := string(l.line)
+		l.line = nil
+		l.Lines = append(l.Lines, line)
+		switch l.state {
+		case "pp":
+			if l.ppRejected < l.PPRejects {
+				l.ppRejected++
+				l.Emit([]byte("\nEnter passphrase for key"))
+				continue
+			}
+			l.state = "pass"
+			l.Emit([]byte("\n" + c05PassPrompt))
+		case "pass":
+			switch {
+			case l.Denied:
+				l.state = "dead"
+				l.Emit([]byte("\nPermission denied"))
+			case l.rejected < l.Rejects || line != l.Pass:
+				l.rejected++
+				l.Emit([]byte("\n" + c05PassPrompt))
+			default:
+				l.state = "shell"
+				l.Emit([]byte("\nWelcome\nrouter#"))
+			}
+		case "shell":
+			out := ""
+			if line != "" {
+				out = "out of " + line + "\n"
+			}
+			l.Emit([]byte("\n" + out + "router#"))
 		}
 	}
 }
